@@ -24,34 +24,44 @@ PROPS["C09"] = {
             "pass-overflow / drop occurred",
     "level_text": "Theorems C09_total (Parse never panics, all inputs), C09_parse_render (every well-formed line of at least "
                   "the minimal length yields exactly facility pri/8, level mapping[pri%8], the six tokens and the message cut "
-                  "to the limit), C09_pri_out_of_range, C09_counted_once, C09_overflow_counted, proved in Lean 4 on a "
+                  "to the limit), C09_pri_out_of_range, C09_counted_once, C09_overflow_counted, C09_cut_at_utf8_boundary (for every valid UTF-8 message, "
+                  "every limit and every cut by the framer: the stored message is a prefix of the original, valid UTF-8, at most three "
+                  "bytes - one cut character - short of the limit; built on Utf8.clean_take_valid), C09_uncut_unchanged, proved in Lean 4 on a "
                   "statement-level model of syslogparser.go; model tied to the code by differential runs through the real "
-                  "parser (fields, flags and all six counters compared after every call) and six regenerated source facts. "
-                  "PARTIAL: the UTF-8 clause (cut of a valid message is a valid prefix) is so far checked by the correspondence "
-                  "oracle only; the Lean theorem for it is not proved yet.",
+                  "parser (fields, flags and all six counters compared after every call) and six regenerated source facts.",
     "level_note": "Trusted: Lean kernel + 3 standard axioms; the sampled model-code correspondence; strconv.Atoi and "
                   "strings.ToValidUTF8 as modelled (differential-checked).",
-    "partial": "UTF-8 boundary clause not yet a theorem (C09_cut_utf8 pending)",
     "assumptions": ["strconv.Atoi = Parse.atoi (sign, digits, int64 range)",
                     "strings.ToValidUTF8(s, \"\") = Utf8.toValid (Go's utf8 acceptance table)"],
 }
 
 PROPS["C08"] = {
-    "modules": ["SlogModel.Props.C08"],
-    "components": [("frame", 20000, 300000)],
+    "modules": ["SlogModel.Props.C08", "SlogModel.Props.C08Flush"],
+    "components": [("frame", 20000, 300000), ("flush", 14, 160)],
     "rule": "one case = one reader instance driven by a sequence of read / flush / flushall calls (offsets and emitted "
             "records compared after every call); includes all 1-cut and (windowed) 2-cut splits of five short streams, random "
             "cuts of random multi-line streams, tiny buffers that overflow, and TestRecordStart alone; distinct by the "
-            "op sequence; non-trivial = at least one record emitted or a TestRecordStart case",
+            "op sequence; non-trivial = at least one record emitted or a TestRecordStart case. flush: one case = one real "
+            "util.NetConnWrapper on a loopback connection driven through a schedule of sleeps and peer writes (flush interval 60-100 ms), "
+            "every Read observed from outside (call time, return time, deadline before / after) and judged by the model, or one real "
+            "tcplistener connection under continuous line-by-line traffic of two-line records for 1-2 s with the sink's Flush calls "
+            "counted; non-trivial = at least one renewal or timeout / an undisturbed listener run",
     "level_text": "Theorems C08_fragmentation (any two non-overflowing fragmentations of a stream emit the same records and reach "
                   "the same state as the byte-fed reference framer), C08_no_overflow_of_prefixes (the side condition depends on the "
                   "stream only), C08_flush_single_line (single-line valid records, any cuts, flush ticks anywhere: exactly the "
                   "lines, once each, in order), C08_continuation and C08_next_start_emits (continuation lines stay attached), "
                   "proved in Lean 4 for all streams / cuts / flush placements on a model of multilinereader.go whose derived "
-                  "offsets are compared with the real offsetSearch / offsetAppend after every call.",
+                  "offsets are compared with the real offsetSearch / offsetAppend after every call. When the listener flushes "
+                  "(Model/FlushPolicy.lean: NetConnWrapper.Read's lazy deadline renewal and the read loop of runConnection): "
+                  "C08_timeout_means_idle / C08_idle_ticks_after_pause (a flush after a read timeout follows an idle period of at least "
+                  "the flush interval), C08_renewal_flushes_bounded (flushes 'for deadline update', the only ones that can cut a "
+                  "multi-line record although the sender did not pause, number at most lifetime / interval + 1), consistent_of_renew "
+                  "(the observer's check of a real Read accepts every behaviour of the model); tied by four regenerated source facts "
+                  "(renewal condition, 2x interval, the listener's interval, the read loop's flush branches) and the flush component.",
     "level_note": "Trusted: Lean kernel + 3 standard axioms; that processBuffer's index loop equals the byte-fed model is "
-                  "established by the differential run (all outputs and both offsets, every call), not by proof; flush timing of "
-                  "the real listener (read-deadline renewal) is represented by arbitrary flush placement.",
+                  "established by the differential run (all outputs and both offsets, every call), not by proof; in the framing "
+                  "theorems flush ticks are placed arbitrarily, and the flush-policy theorems bound where the real listener places "
+                  "them; kernel timers fire no earlier than their deadline (observed one-sidedly).",
     "partial": "the theorems assume no overflow handling is triggered (records shorter than the soft limit); the overflow branch "
                "is covered by totality/differential only",
     "assumptions": ["TCP delivers the byte stream in arbitrary fragments; each Read returns at most the free buffer space"],
@@ -84,14 +94,17 @@ PROPS["C14"] = {
             "length <= 5 (thorough 7) over {a,1,@,.,/,space}, texts built from filler with 0-6 generated addresses (back to "
             "back, truncated, numeric, digit-edged domains); distinct by bytes; non-trivial = contains '@'",
     "level_text": "Theorems C14_no_at_unchanged, C14_spans_ordered (spans non-empty, ordered, disjoint, inside the text: the output "
-                  "is the text with exactly these spans replaced, everything else preserved), C14_length, proved in Lean 4 on an "
-                  "index-faithful model of redactemail.go. PARTIAL: completeness (every address of the supported shape lies inside "
-                  "the spans) and soundness (only such addresses are redacted) are not yet Lean theorems; they are decided by the "
+                  "is the text with exactly these spans replaced, everything else preserved), C14_length, C14_every_at_examined (the scan "
+                  "never skips an '@': each one with a word character on both sides is inside a redacted span or was rejected by "
+                  "findStart / findEnd), C14_complete_dotted_partial (every address loc@label.d... of the supported shape whose domain is "
+                  "not number-like has its '@' inside a redacted span, wherever it sits, back-to-back addresses included), proved in "
+                  "Lean 4 on an index-faithful model of redactemail.go. PARTIAL: domains cut by the end of the text, the exact extent "
+                  "of the span and soundness (only such addresses are redacted) are decided by the "
                   "correspondence run, whose oracle compares the implementation with a reference redactor written from the "
                   "property's wording. Two recorded deviations from the letter of 'domain not purely numeric' are known findings.",
     "level_note": "Trusted: Lean kernel + 3 standard axioms; sampled model-code correspondence; the formalisation of the supported "
                   "address shape (harness oracle / DESIGN.md C14).",
-    "partial": "C14_complete / C14_sound pending as theorems",
+    "partial": "completeness proved for dotted, not number-like domains; truncated domains and soundness by the reference-redactor oracle",
     "assumptions": [],
 }
 
@@ -150,12 +163,13 @@ PROPS["C15"] = {
                   "C15_block_inline, C15_if_*, C15_switch_*, C15_match_order_irrelevant, C15_slice_spec (Python slice for all "
                   "bounds), C15_truncate_spec / _ascii, C15_mapvalue_spec, C15_delfields, C15_unescape_once, "
                   "C15_extract_head_decompose (text = left ++ tag ++ right ++ rest, label trimmed, boundary within range), "
-                  "C15_extract_head_total. The real transforms are compared with the interpreter on generated programs; a "
+                  "C15_extract_head_first (the first boundary), C15_extract_tail_decompose (text = rest ++ left ++ tag ++ right, the "
+                  "last boundary within range), C15_truncate_utf8 (a valid UTF-8 value is cut to a valid prefix, at most one character "
+                  "short), C15_extract_head_total / _tail_total. The real transforms are compared with the interpreter on generated programs; a "
                   "disagreement is reported with the program and record as replay.",
     "level_note": "Trusted: Lean kernel + 3 standard axioms; sampled correspondence. PARTIAL: replace / extract (Go regexp) and "
-                  "general !!regex / !!glob matchers are opaque (only their plumbing is exercised); tail extraction has the "
-                  "correspondence but not yet the decomposition theorem; UTF-8 safety of the truncate cut is pending (shared with C09).",
-    "partial": "regexp/glob opaque; extractTail decomposition and UTF-8-safe cut theorems pending",
+                  "general !!regex / !!glob matchers are opaque (only their plumbing is exercised).",
+    "partial": "regexp/glob opaque",
     "assumptions": ["pairs of one addFields step do not interfere (Go map iteration order is unspecified)"],
 }
 
@@ -198,17 +212,20 @@ PROPS["C02"] = {
                   "and later ack k (c | positional) immediately before its report), C02_resolved_exactly_once (taken = confirmed + "
                   "handed back + held, with multiplicity; nothing twice), C02_finished_all_resolved (after OnFinished nothing is "
                   "held), C02_resend_order (ids strictly increase on every connection), C02_dedup_never_removes, "
-                  "C02_trace_resolved_once, C02_monitored_trace (a log accepted by the monitor inherits the theorems). Tie: the "
+                  "C02_trace_resolved_once, C02_monitored_trace (a log accepted by the monitor inherits the theorems), "
+                  "C02_can_always_deliver / C02_retransmitted_until_acked (no reachable state is a trap: whatever faults and "
+                  "interleavings came before, the continuation a well-behaved upstream allows confirms every chunk the client holds, "
+                  "oldest first). Tie: the "
                   "log of every run of the real client must be accepted by Client.monitor (it is a run of the transition system, "
                   "with the same confirmations, leftovers and taken chunks) and by Client.checkTrace; eight regenerated source "
                   "facts (acknowledger statement order, leftover sources, sort, lastChunk discipline, channel capacity, final "
                   "hand-over, callback call sites).",
     "level_note": "Trusted: Lean kernel + 3 standard axioms; the monitor correspondence samples schedules of the real goroutines "
                   "(the proof covers all interleavings of the model; the harness samples those of the code); the scripted "
-                  "connection honours the contract 'Close makes pending operations return'. PARTIAL: the liveness sentence "
-                  "(every unacknowledged chunk is retransmitted until acknowledged) is not a theorem; the harness only reports a "
-                  "client that fails to finish within 8 s of a stop request.",
-    "partial": "liveness clause (retransmission until acknowledged) not a theorem; real scheduling sampled",
+                  "connection honours the contract 'Close makes pending operations return'. PARTIAL: the liveness sentence is proved "
+                  "as possibility from every reachable state (C02_can_always_deliver), not as inevitability under a fairness "
+                  "assumption on the real scheduler; the harness reports a client that fails to finish within 8 s of a stop request.",
+    "partial": "liveness clause proved as possibility (no trap state), not as inevitability under fairness; real scheduling sampled",
     "assumptions": ["ClosableClientConnection.Close unblocks pending SendChunk / ReadChunkAck",
                     "chunk ids in the queue are distinct and increasing (C11_ids_increasing)"],
 }
@@ -229,15 +246,19 @@ PROPS["C03"] = {
                   "C03_taken_in_order (consumer order is a subsequence of recovered-in-name-order ++ acceptance order), C03_delivered_unchanged "
                   "and C03_files_hold_accepted_bytes (what the consumer receives, and every file of an accepted id, is byte for byte what was "
                   "accepted or recovered), "
-                  "C03_window_bound, C03_recovered_first. Tie: state-by-state correspondence of the real buffer with the model at "
+                  "C03_window_bound, C03_recovered_first, C03_space_bound / C03_space_within_limit (the files of the directory never hold more "
+                  "than persistent_chunk_bytes, and that gauge never exceeds the configured limit or what was found at the start), "
+                  "C03_memory_bound (at every quiescent point every queued entry is unloaded: the loaded chunks are the window and at "
+                  "most one in the feeder's hand). Tie: state-by-state correspondence of the real buffer with the model at "
                   "every quiescent point (counters, gauges, window, hand, file contents) and seven regenerated source facts "
                   "(non-blocking select in Accept, spill rule, recovery before feeder start, channel capacities, quota test before "
                   "the write, checked hand-back, save order at shutdown).",
     "level_note": "Trusted: Lean kernel + 3 standard axioms; sampled correspondence at quiescent points (between them the real "
-                  "goroutines interleave; the harness does not explore those schedules). PARTIAL: the space bound and the memory bound at quiescent points are decided by the correspondence and the "
-                  "harness oracle, not yet by theorems; chunks saved concurrently by consumer hand-backs and the feeder at "
+                  "goroutines interleave; the harness does not explore those schedules). PARTIAL: the model writes a file atomically with its quota check, so the slack 'plus the chunks being saved "
+                  "concurrently at shutdown' and the loaded chunks sitting in the input channel between quiescent points are outside "
+                  "the theorems (harness oracle only); chunks saved concurrently by consumer hand-backs and the feeder at "
                   "shutdown are serialised by the harness.",
-    "partial": "space-bound and memory-bound clauses not yet theorems; shutdown concurrency serialised",
+    "partial": "space and memory bounds proved at quiescent points of the serialised model; shutdown concurrency serialised",
     "assumptions": ["chunk ids are never reused (C11_ids_increasing) and nobody else writes to the queue directory",
                     "file operations are atomic at this level (step-level disk model: C04)"],
 }
